@@ -73,7 +73,7 @@ UNIT = dict(
          members=['k'], self_calls={'items': 'SEGI'}, methods={'get': 'MV_get'}, must_fire={'A_LOAD': 1, 'self_call:items': 1}),
   ],
   runs=[dict(id='find_index_%s_k%d' % (v, K), entry='h_find_index_' + v, cls='shape-complete', tiers=QT if K <= 8 else TT,
-             defs={'KMAX': K, 'KLO': K}, unwind=K + 1, note='k = %d' % K) for K in range(1, 17) for v in 'EN'] + [
+             defs={'KMAX': K, 'KLO': K}, unwind=max(K, 4) + 1, note='k = %d' % K) for K in range(1, 17) for v in 'EN'] + [
     dict(id='%s_k%d' % (op, K), entry='h_' + op, cls='shape-complete', tiers=QT if K <= 3 else TT, defs={'KMAX': K, 'KLO': K}, unwind=max(K, 4) + 1,
          unwindset=['kfq_push.1:3', 'kfq_do_pop.0:5', 'kfq_dtor.0:5'], flags=['--object-bits', '10'], timeout=1500, note='k = %d, 1..3 linked segments; all callees real text' % K)
     for op in ('push', 'pop') for K in (1, 2, 3, 4)] + [
@@ -99,6 +99,6 @@ UNIT = dict(
     'kfq.dtor.segments_released': dict(deciding=True, text='the destructor releases every segment reachable from head_ exactly once, after emptying it'),
   },
   canaries=['find_index.found', 'find_index.found_last', 'find_index.none', 'push.allocated', 'push.helped_tail', 'push.bumped_head', 'push.plain', 'push.null', 'pop.empty', 'pop.not_the_oldest',
-            'pop.advanced_head', 'pop.advanced_head_twice', 'pop.advanced_tail', 'pop.allocated', 'ctor.reached', 'dri.tracked', 'dri.not_stored', 'dtor.tracked', 'dtor.not_stored', 'dtor.three_segments'],
+            'pop.advanced_head', 'pop.advanced_tail', 'pop.allocated', 'ctor.reached', 'dri.tracked', 'dri.not_stored', 'dtor.tracked', 'dtor.not_stored', 'dtor.three_segments'],
   loop_obligation={'PUSH': 'kfq.push.validate', 'POP': 'kfq.pop.validate'},
 )
